@@ -10,26 +10,36 @@ CHECK abort is a violation with the command line as replay, independently of any
 Thorough adds clang++, -DEMBOSS_NO_OPTIMIZATIONS (portable byte loops) and the aligned
 (`MakeAligned…View<…, 8>`, typed loads) code path.
 
+Round 2: `TXT` / `UPD` (text output under every option set incl. base 2/16, digit grouping,
+multiline, comments, allow_partial_output on truncated buffers; UpdateFromText on the produced text
+and on garbage), buffers holding the extremes of every fixed-position field, generated
+full-width arithmetic (embgen `Ar*` structs), and the **carrier-type tie** (harness/lib/cpptypes.py):
+IntermediateT/ResultT/ArgT of every run-time function node as the Lean model computes them
+(`Emboss.Bounds.nodeTypes` through `model_c04`) == the types literally present in every generated
+header.
+
 Lean side (Properties/C04.lean): the byte-window contract of `GetOffsetStorage` (clamping keeps
 every window inside the buffer; the list-slice storage of the view model G is exactly that
-window), a model of the byte orderers showing the `NullByteOrderer` size defect, and the
-virtual-field write overflow witness.  The arithmetic theorem `C04_no_overflow` is builder
-`bounds`' (Emboss/Properties/C04Arith.lean), imported after the merge.
+window), the byte orderers / BitBlock reads (all orderers since fix a39ac01), the range-checked
+virtual-field write (fix 1e1a793), and `C04_arith_no_overflow` (= builder `bounds`' C04Arith).
 """
 import collections
 import time
 import json
 
-from harness.lib import common, cppdrv, viewcorr
+from harness.lib import common, cppdrv, cpptypes, viewcorr
 
 PROP = "C04"
 
 
 def _commands(r, case, tier, op_obs="OBS"):
     quick = tier == "quick"
-    cmds = [s[0] for s in viewcorr.obs_sweeps(r, case, 3 if quick else 8, op=op_obs)]
+    cmds = [c if op_obs == "OBS" or c.split()[0] != "OBS" else c.replace("OBS", op_obs, 1)
+            for c in viewcorr.pinned_commands(case, ("WR", "EQ", "CP", "CPO", "TXT", "UPD"))]
+    cmds += [s[0] for s in viewcorr.obs_sweeps(r, case, 3 if quick else 8, op=op_obs)]
     cmds += viewcorr.write_commands(r, case, 1 if quick else 3)
     cmds += viewcorr.pair_commands(r, case, 4 if quick else 10)
+    cmds += viewcorr.text_commands(r, case, tier)
     return cmds
 
 
@@ -58,8 +68,32 @@ def _run_cases(chk, cases, r, tier, stats, label, op_obs="OBS"):
                 raise common.InfraError("driver rejected %r" % c)
             # distinct behaviours reached
             chk.nontrivial((case.name, c.split()[1], op, a[:12] if op != "OBS" else a[:16]))
+            if op == "TXT":
+                f = a.split()
+                stats["txt_written" if f[2] == "w1" else "txt_not_ok_no_partial"] += 1
+                if f[2] == "w1" and "p" in c.split()[-2]:
+                    stats["txt_partial_output"] += 1
+                if f[2] == "w1" and f[4] == "u1":
+                    stats["txt_update_from_own_text_ok"] += 1
+            if op == "UPD":
+                stats["upd_accepted" if a.split()[1] == "u1" else "upd_refused"] += 1
         if len(chk.cov["samples"]) < 5 and cmds:
             chk.sample({"case": case.name, "build": label, "command": cmds[-1], "answer": (answers[-1] or "")[:200]})
+
+
+def _type_tie(chk, cases, stats, use_model=True):
+    """IntermediateT / ResultT / ArgT per run-time function node: Lean model vs generated header."""
+    problems, tstats = cpptypes.check_modules(cases, use_model)
+    chk.extra["carrier_type_tie"] = tstats
+    for pr in problems:
+        unsound = pr["nodes_without_sound_instantiation"]
+        stats["type_tie_problems"] += 1
+        chk.violation("input" if unsound else "correspondence", dict(
+            pr, command="(header only)", expected="the C++ types of every generated arithmetic node are the ones "
+            "Emboss.Bounds.nodeTypes/cppTypeForRange give (hypothesis of C04_arith_no_overflow)" +
+            ("; no instantiation of the operator in the header can hold the node's inferred ranges: the arithmetic "
+             "overflows or truncates for some field value" if unsound else ""),
+            theorem_or_correspondence="model_c04 NODE/CPPTYPE vs header text"), found_input=bool(unsound))
 
 
 def _pinned(chk):
@@ -74,7 +108,7 @@ def _pinned(chk):
     return out
 
 
-def _run(chk, tier):
+def _run(chk, tier, model_ok=True):
     r = common.rng("C04")
     quick = tier == "quick"
     stats = collections.Counter()
@@ -82,6 +116,7 @@ def _run(chk, tier):
                                       testdata=viewcorr.TESTDATA[:7] if quick else viewcorr.TESTDATA,
                                       null_order_modules=1 if quick else 2)
     pinned = _pinned(chk)
+    _type_tie(chk, cases, stats, model_ok)
     builds = [("g++ -std=c++14 -O0", dict(std="c++14", compiler="g++", opt="-O0", defines=()), "OBS")]
     if not quick:
         builds += [("clang++ -std=c++17 -O1", dict(std="c++17", compiler="clang++", opt="-O1", defines=()), "OBS"),
@@ -89,7 +124,7 @@ def _run(chk, tier):
                     dict(std="c++11", compiler="g++", opt="-O1", defines=("EMBOSS_NO_OPTIMIZATIONS",)), "OBS"),
                    ("g++ -std=c++17 -O1 aligned", dict(std="c++17", compiler="g++", opt="-O1", defines=()), "OBSA")]
     for label, kw, op_obs in builds:
-        feats = ("obsa", "wr", "eq", "cp") if op_obs == "OBSA" else ("obs", "wr", "eq", "cp")
+        feats = ("obsa", "wr", "eq", "cp", "txt") if op_obs == "OBSA" else ("obs", "wr", "eq", "cp", "txt")
         allc = cases + [c for _k, c, _cmds in pinned]
         failed = viewcorr.build_cases(allc, features=feats, workers=8, **kw)
         for c in failed:
@@ -110,18 +145,17 @@ def _run(chk, tier):
 
 def search(chk):
     before = len(chk.violations)
-    _run(chk, "quick")
+    _run(chk, "quick", model_ok=False)
     return len(chk.violations) - before
 
 
 def run(tier):
-    chk = common.Check(PROP, tier, exes=[])
+    chk = common.Check(PROP, tier, exes=["model_c04"])
     chk.cov["rule"] = ("one evaluation = one checked-API command (OBS/WR/EQ/CP/CPO) executed by the sanitized "
                        "driver; non-trivial = distinct (case, structure, command kind, answer prefix)")
     chk.trusted += ["ASan/UBSan (g++ 12, clang++ 14) as the oracle for out-of-bounds accesses and UB; what they do "
                     "not instrument (out-of-range pointer formation, aliasing) is not observed",
-                    "Emboss/Properties/C04Arith.lean (builder `bounds`) for arithmetic overflow freedom — "
-                    "TODO import after the merge"]
+                    "harness/lib/cpptypes.py (IR walk + header regex of the carrier-type tie)"]
     chk.assumptions.append("real memory safety is claimed only as far as the sanitizers observe it (level partial)")
     model_ok = common.proof_gate(chk, search)
     if model_ok:
@@ -135,7 +169,17 @@ def replay(path):
     if not p.ok:
         print("module rejected:", p.errors, p.exception)
         return 1
-    (b, log), = cppdrv.build([p], features=("obs", "obsa", "wr", "eq", "cp"))
+    if rec.get("command") == "(header only)":
+        class _C:
+            pass
+        c = _C()
+        c.prepared, c.name, c.text = p, rec.get("case", "replay"), rec["module"]
+        problems, _st = cpptypes.check_modules([c])
+        for pr in problems:
+            print({k: v for k, v in pr.items() if k != "module"})
+        print("carrier types agree" if not problems else "carrier types differ")
+        return 0
+    (b, log), = cppdrv.build([p], features=("obs", "obsa", "wr", "eq", "cp", "txt"))
     if not b:
         print(log[-2000:])
         return 2
